@@ -659,6 +659,20 @@ func BlockOrIdle(what string, pred func() bool) bool {
 	return pred()
 }
 
+// BlockFor parks until pred() holds or d of virtual time has passed. It reports whether pred() held.
+func BlockFor(what string, d time.Duration, pred func() bool) bool {
+	t := Me()
+	if t == nil {
+		return pred()
+	}
+	x := t.x
+	deadline := x.now + d
+	tm := x.AddTimer(d, nil)
+	x.point(t, op{kind: OpBlock, what: what, pred: func() bool { return pred() || x.now >= deadline }})
+	x.StopTimer(tm)
+	return pred()
+}
+
 // Yield is a pure scheduling point.
 func Yield() {
 	if t := Me(); t != nil {
